@@ -8,7 +8,7 @@ HERE = os.path.dirname(os.path.dirname(os.path.abspath(__file__)))
 
 # id -> (category, technique, level text, level note, design ref)
 CLAIMED = {}
-PENDING_REASON = 'check not built yet in this session (planned: DESIGN.md section 5); no claim is made'
+PENDING_REASON = 'no check is registered for this property (see DESIGN.md section 8.5)'
 
 
 def claim(pid, technique, text, note, ref, category='model_checking'):
@@ -146,6 +146,38 @@ claim('C19', 'complete enumeration of value pairs/triples and grid pairs differi
       'both orders; grids against non-grids.',
       'Not pinned (tolerated either way): bool vs number, NaN payloads, one instant in two zones, XStr differing only in type, sub-tolerance '
       'differences. Quantity vs plain number compares the value (C20).', 'DESIGN.md 5 C19')
+
+claim('C11', 'exhaustive enumeration of filter ASTs (all and/or trees, all atoms) x row valuations against a three-valued reference evaluator',
+      'The generator builds the filter AST, renders it with spacing/parenthesis variation and evaluates the real Grid.filter / generated function: '
+      '(1) EVERY and/or tree with <= 4 leaves (5 thorough), every leaf polarity, 4-9 renderings, on the grid of all presence valuations (the truth '
+      'table identifies the boolean function, so a wrong fold, precedence or associativity cannot hide); (2) every literal kind of the filter grammar '
+      '(28) x path shape (a, r->a, r->r->a, names that begin with not/and/or) x has/not/six comparisons x id style (str, Ref, Ref with display) on rows '
+      'realising absent, null, marker, equal, just below, just above, other kind, dangling reference, missing reference tag; (3) every atom under 8 '
+      'connective positions; (4) limit, empty filter, result header, identity and order of result rows, source grid untouched.',
+      'Oracle ref/reffilter.py is three-valued (DESIGN.md Appendix C): where the statement does not fix the answer the atom is a don\'t-care and a row '
+      'is compared only when the whole formula is definite; an exception on a definite row is a violation. Larger trees and other literals are not '
+      'covered.', 'DESIGN.md 5 C11')
+claim('C12', 'complete product of canary payloads x grammar positions x enclosing shapes under audit-hook, canary, stdout, semantic-probe and global-state monitors',
+      '24 callable names (builtins, hszinc internals, a planted canary) as extended-string type with effectful arguments, 16 quote/backslash/newline '
+      'break-out strings and 21 builtin/keyword-like names are placed in every literal and identifier position of the filter grammar (xstr type and '
+      'payload alone / in a list / in a dict / after a path, string, URI, reference name and display, list element, dict key and value, tag name, path '
+      'segment, unit, zone, Bin) x 5 enclosing shapes; each filter runs after a benign twin of the same kind. Violations: the canary ran, any audited '
+      'event other than compiling/executing the generated def (open, import, exec/compile of other text, os.*, subprocess, socket ...), audit events '
+      'differing from the twin, a write to stdout, a probe row that is only selected if the payload was evaluated, a change of builtins / sys.modules / '
+      'os.environ / cwd / hszinc module globals, a modified grid; 57 texts that are not filters must be rejected with pyparsing\'s ParseException.',
+      'Effects no monitor can observe (pure computation whose value no probe row matches) are outside the check. Payloads are inert by construction.',
+      'DESIGN.md 5 C12')
+claim('C13', 'exhaustive preemption-bounded enumeration of thread interleavings of the real code under a settrace scheduler; exhaustive short cache histories',
+      'Real threads run the real Grid.filter under a deterministic scheduler whose scheduling points are the source lines of the non-lambda functions '
+      'of hszinc/grid_filter.py and of Grid.filter; ALL interleavings with at most the stated number of preemptions are executed for 5 thread plans '
+      '(2 and 3 threads, distinct and identical filters, cache capacity real / 1 / 2): quick = bound 2 for two distinct filters, 1 otherwise; thorough '
+      '= 3 with two threads, 2 with three. Each execution ends with a sequential post-phase re-evaluating every filter and every function object '
+      'obtained earlier; results must equal the reference evaluator, no thread may raise, no finaliser may raise (sys.unraisablehook), no deadlock; a '
+      'failing schedule is replayed and must fail identically. Plus every request history of length <= 5 (6) over 4 filters with capacity 1 and 2, and '
+      'individual long histories around the real capacity (499..502 cyclic, hot/cold, 1500).',
+      'Interleavings below source-line granularity and inside C code (functools.lru_cache) are not explored; gc is disabled during an execution. The '
+      'long histories are single runs, not exhaustive. Real Lock/RLock objects in grid_filter\'s globals are replaced by scheduler-aware locks.',
+      'DESIGN.md 5 C13')
 
 
 def main():
